@@ -46,17 +46,25 @@ def run_mutant(mu, tier, with_tests, jobs):
                 return out
             open(p, 'w').write(s.replace(e['old'], e['new']))
         if with_tests:
-            r = subprocess.run(['/venv/bin/python', '-m', 'pytest', '-q', '-x', '-p', 'no:cacheprovider', 'geodepy/tests', 'api'],
-                               cwd=d, capture_output=True, text=True, timeout=900)
-            out['repo_tests_pass'] = (r.returncode == 0)
-            if r.returncode != 0:
-                out['repo_tests_tail'] = r.stdout.strip().splitlines()[-1:]
+            try:
+                r = subprocess.run(['/venv/bin/python', '-m', 'pytest', '-q', '-x', '-p', 'no:cacheprovider', '--timeout=120',
+                                    'geodepy/tests', 'api'], cwd=d, capture_output=True, text=True, timeout=400)
+                out['repo_tests_pass'] = (r.returncode == 0)
+                if r.returncode != 0:
+                    out['repo_tests_tail'] = r.stdout.strip().splitlines()[-1:]
+            except subprocess.TimeoutExpired:
+                out['repo_tests_pass'] = False
+                out['repo_tests_tail'] = ['timeout']
         res = {}
         for pid in mu['props']:
             env = dict(os.environ, VERIF_REPO_ROOT=d, VERIF_EVIDENCE_DIR=os.path.join(d, '.verif-evidence'),
                        VERIF_REPLAY_DIR=os.path.join(d, '.verif-replays'), VERIF_JOBS=str(jobs))
-            r = subprocess.run([os.path.join(ROOT, 'check'), pid, '--tier', tier], env=env, capture_output=True, text=True,
-                               timeout=3600)
+            try:
+                r = subprocess.run([os.path.join(ROOT, 'check'), pid, '--tier', tier], env=env, capture_output=True, text=True,
+                                   timeout=1500)
+            except subprocess.TimeoutExpired:
+                res[pid] = {'rc': 2, 'mechanisms': ['(check timed out)']}
+                continue
             mechs = [l.strip() for l in r.stdout.splitlines() if l.strip().startswith('mechanism=')]
             res[pid] = {'rc': r.returncode, 'mechanisms': [m.split()[0][len('mechanism='):] for m in mechs][:6]}
         out['checks'] = res
